@@ -49,16 +49,21 @@ def _encode_response(
     body_bytes = b""
     if isinstance(status, bool) or not isinstance(status, int) or not 10 <= status <= 69:
         status, meta, body = 40, "Server error: handler returned an invalid status", None
-    if 20 <= status <= 29 and body:
+    if 20 <= status <= 29:
         try:
-            if isinstance(body, (bytes, bytearray, memoryview)):
+            if not body:
+                body_bytes = b""
+            elif isinstance(body, (bytes, bytearray, memoryview)):
                 body_bytes = bytes(body)
             else:
                 body_bytes = str(body).encode("utf-8")
-        except UnicodeEncodeError:
+        except Exception:  # not encodable, or the object's own conversion raised
             status, meta = 40, "Server error: response body is not valid text"
             body_bytes = b""
-    meta_text = str(meta if meta is not None else "")
+    try:
+        meta_text = str(meta if meta is not None else "")
+    except Exception:
+        status, meta_text, body_bytes = 40, "Server error: response meta is not text", b""
     meta_text = meta_text.replace("\r", " ").replace("\n", " ")
     meta_bytes = meta_text.encode("utf-8", "replace")[:MAX_META_SIZE]
     # Do not leave a truncated multi-byte sequence at the end
